@@ -109,6 +109,12 @@ SHIMS = {
     'bool-to-string': dict(pattern=r'\bself\.(bold|italics|underscore|strikethrough|reverse|blink)\.to_string\(\)', replace=r'bool_to_string(self.\1)', spec='r@ == "true" / "false"'),
     'rgb-vec-to-hex': dict(pattern=r'\bfg_bg_256\.iter\(\)\s*\.map\(\|&\(r, g, b\)\| format!\(("[^"]*"), r, g, b\)\)\s*\.collect\(\)', replace=r'rgb_vec_to_hex(\1, &fg_bg_256)', spec='elementwise format!("{:02x}{:02x}{:02x}") of the (r,g,b) triples: hex6 for components in 0..=255'),
     'charset-const': dict(pattern=r'\b(LAT1_MAP|VT100_MAP|IBMPC_MAP|VAX42_MAP)\b', replace=r'const_\1()', spec='the constant table as an abstract value (contents: Kani harness charset_tables_match_reference)'),
+    # `for &K in TABLE {` over a reference to an array/slice: bind the reference and dereference it (IntoIterator for &[T; N] is slice::iter; rustc re-checks types)
+    'for-deref-key-a': dict(pattern=r'(?<=for )&key(?= in BASIC \{)', replace=r'key__r', spec='Rust pattern semantics'),
+    'for-deref-key-b': dict(pattern=r'(?<=for &key in BASIC)(?= \{)', replace=r'.iter()', spec='<&[T; N] as IntoIterator>::into_iter is <[T]>::iter'),
+    'for-deref-key-c': dict(pattern=r'(?<=for &key in BASIC \{)', replace=r' let key = *key__r;', spec='Rust pattern semantics'),
+    # Parser::is_special_start: the scan of the lazy_static SPECIAL set (membership PROVED on the initialiser block, unit parser)
+    'special-any-prefix': dict(pattern=r'SPECIAL\.iter\(\)\.any\(\|special\| s\.starts_with\(special\)\)', replace=r'special_any_prefix(s)', spec='r == (some element of the SPECIAL table is a prefix of s); trusted: lazy_static deref, HashSet::iter visits every element, str::starts_with'),
     # CharOpts::update_from_map
     'hm-into-pairs': dict(pattern=r'(?<=for \(key, value\) in )map(?= \{)', replace=r'pairs__it: hm_into_pairs(map)', spec='HashMap::into_iter by value yields every entry exactly once (some order)'),
     'parse-bool': dict(pattern=r'\bvalue\.parse\(\)\.unwrap_or\(false\)', replace=r'parse_bool_or_false(&value)', spec='str::parse::<bool>: exactly "true" gives true, anything else false'),
